@@ -54,12 +54,16 @@ func Verif_C14_B3_Read() {
 		name = instance + "/" + name
 	}
 
-	s := NewByteStreamServer(backend, chunk, nil)
+	streaming := &verifStreamingCAS{Model: backend}
+	s := NewByteStreamServer(streaming, chunk, nil)
 	err := s.Read(&bytestream.ReadRequest{ResourceName: name, ReadOffset: off, ReadLimit: limit}, stream)
 	got := stream.all()
 
 	for _, c := range stream.sent {
 		vnd.Assert(len(c) <= chunk, "Send payload larger than the configured read chunk size")
+	}
+	for _, src := range streaming.sources {
+		vnd.Assert(src.closes == 1, "backend stream not released exactly once")
 	}
 	for _, c := range backend.Calls {
 		vnd.Assert(c.Op == "Get" && len(c.Digests) == 1 && c.Digests[0] == obj.Digest, "backend asked for something other than the named object")
